@@ -141,6 +141,9 @@ pub struct BuildSpec {
     pub psks: Vec<(u8, Vec<u8>)>,
     pub prologue: Option<Vec<u8>>,
     pub rng: Vec<u8>,
+    /// `NoiseParams.name` replaced after parsing (the field is public, and `NoiseParams::new` takes any string): the
+    /// handshake must hash THIS string, whatever the choices are
+    pub alias: Option<String>,
 }
 
 #[derive(Clone, Debug, Default)]
@@ -270,7 +273,7 @@ impl Exec {
             spec.psks.iter().map(|(i, k)| format!("{}:{}", i, hex(k))).collect::<Vec<_>>().join(",")
         };
         let op = format!(
-            "build {} {} {} res={} s={} e={} rs={} psks={} pro={} rng={}",
+            "build {} {} {} res={} s={} e={} rs={} psks={} pro={} rng={}{}",
             sid,
             if spec.initiator { "i" } else { "r" },
             hex(spec.name.as_bytes()),
@@ -280,11 +283,15 @@ impl Exec {
             opt_hex(&spec.rs),
             psks,
             opt_hex(&spec.prologue),
-            hex(&spec.rng)
+            hex(&spec.rng),
+            spec.alias.as_ref().map_or(String::new(), |a| format!(" alias=x{}", hex(a.as_bytes())))
         );
         let log = new_log();
         let r = catch_unwind(AssertUnwindSafe(|| -> Result<HandshakeState, Error> {
-            let params: NoiseParams = spec.name.parse()?;
+            let mut params: NoiseParams = spec.name.parse()?;
+            if let Some(a) = &spec.alias {
+                params.name = a.clone();
+            }
             let mut b = if spec.resolver == "new" {
                 // snow's own choice of resolver (`Builder::new`): no recording, no scripted randomness
                 Builder::new(params)
